@@ -7,11 +7,30 @@ import traceback
 from . import harness
 
 
+def _linecov_start():
+    """tools/linecov.py: which lines of parso did this shard execute (sys.monitoring LINE, each location reported once)"""
+    import os
+    mon = sys.monitoring
+    hit = set()
+    root = os.path.join(harness.REPO, 'parso') + os.sep
+    mon.use_tool_id(mon.COVERAGE_ID, 'vmon-linecov')
+
+    def on_line(code, line):
+        if code.co_filename.startswith(root):
+            hit.add((code.co_filename[len(root):], line))
+        return mon.DISABLE
+    mon.register_callback(mon.COVERAGE_ID, mon.events.LINE, on_line)
+    mon.set_events(mon.COVERAGE_ID, mon.events.LINE)
+    return hit
+
+
 def main():
     pid, specf, outf = sys.argv[1:4]
     with open(specf) as f:
         spec = json.load(f)
     harness.ensure_deps()
+    import os
+    cov = _linecov_start() if os.environ.get('VMON_LINECOV') else None
     harness.import_parso()
     mod = importlib.import_module('vmon.props.' + pid.lower())
     ctx = harness.Ctx(pid, spec)
@@ -27,6 +46,9 @@ def main():
         rc = 3
     with open(outf, 'w') as f:
         json.dump(ctx.dump(), f)
+    if cov is not None:
+        with open(os.path.join(os.environ['VMON_LINECOV'], 'cov-%s-%d.json' % (pid, os.getpid())), 'w') as f:
+            json.dump(sorted(cov), f)
     sys.exit(rc)
 
 
